@@ -61,6 +61,27 @@ def run_render(rep, ctx, label, observers, n_quick, n_thorough, corr_fraction=1.
                     rep.violation('%s-identity-%d' % (label, fail_counts['identity']), {'what': fails, 'a_text': a, 'b_text': a})
         if rng.random() < corr_fraction:
             frag_pairs.append((a, b))
+    # ---- real pages (the repository's own fixtures), observers only
+    real = rc.real_pages()
+    n_real = 0
+    for a, b in real:
+        rep.count(('real', len(a), len(b), a == b, hash(a) & 0xffff, hash(b) & 0xffff), a != b)
+        try:
+            r = rc.render(a, b, include=include, url_rules=url_rules)
+            fails = []
+            for name, obs in observers:
+                fails += obs(a, b, r)
+            if identity and a == b:
+                fails += rc.identity_failures(a, r)
+        except Exception as e:  # noqa
+            fails = ['html_diff_render raised %s: %s' % (type(e).__name__, e)]
+        if fails:
+            n_real += 1
+            if n_real <= 2:
+                rep.violation('%s-real-page-%d' % (label, n_real), {'what': fails[:4], 'a_text': a, 'b_text': b, 'include': include, 'url_rules': url_rules,
+                                                                   'source': 'web_monitoring_diff/tests/fixtures/versions/*'})
+    rep.obligation('observer %s: property holds on %d pairs of real archived pages (repository fixtures)' % (label, len(real)), n_real == 0)
+    rep.extra['real_page_pairs'] = len(real)
     for name, _ in observers:
         rep.obligation('observer %s/%s: property holds on %d document pairs' % (label, name, len(docs)), fail_counts[name] == 0)
     if identity:
